@@ -140,6 +140,7 @@ func main() {
 	l = append(l, scenario(opt{name: "fn/" + setAd.Name + "@3", ad: setAd, pre: 3, dev: 1, tiers: "thorough", rounds: 2}))
 	explore.Main(&explore.Config{
 		Property:  "C02",
+		Extra:     clockArithmetic,
 		Scenarios: l,
 		Rule:      "all schedules x clock/fault answers of requester + periodic updater + one admin action (manual reset, allocator reset, hand-over); after every grant the process is 'crashed' and a fresh member (clock offset -1h/0/+1h) takes over on a copy of the storage",
 		Assumptions: []string{
